@@ -88,13 +88,8 @@ def run(ctx):
       if not (okm and okkw):
         continue
       Tt = red.args[1][0]
-      i_t = [x for x in walk(kw['axis']) if x.op == 'rangevar']
-      ok_ax = bool(i_t)
-      if ok_ax:
-        iv = i_t[0]
-        nd = spec_term(ev, 'g.ndim', env)
-        exp_ax = spec_term(ev, 'list(range(i)) + list(range(i + 1, n))', {'i': iv, 'n': nd})
-        ok_ax = cmpr.same(kw['axis'], exp_ax) and iv.args and cmpr.same(iv.args[0], nd)
+      nd = spec_term(ev, 'g.ndim', env)
+      ok_ax = _all_axes_but_i(ev, cmpr, kw['axis'], nd, acc_new.args[0].args[1])
       ctx.ob('C12.R1d', fu.short, f'max over exactly the axes != i {tag}', ok_ax,
              f'accumulator i must reduce over range(i) + range(i+1, ndim) for i in range(ndim); got axis=`{show(kw["axis"], maxdepth=5)[:200]}`', ctx.loc(fu),
              sample='axes = range(i) + range(i+1, ndim)')
@@ -156,6 +151,40 @@ def run(ctx):
            ctx.loc(fi0), sample='float32 accumulators')
   else:
     ctx.ob('C12.R3', fi0.short, 'one zero accumulator per axis', False, f'got `{show(acc0, maxdepth=4)[:160]}`', ctx.loc(fi0))
+
+
+def _is_range_ndim(cmpr, it, nd):
+  while it.op == 'call' and it.args[0].op == 'builtin' and it.args[0].args[0] in ('list', 'tuple', 'iter') and len(it.args[1]) == 1:
+    it = it.args[1][0]
+  return it.op == 'call' and it.args[0].op == 'builtin' and it.args[0].args[0] == 'range' and len(it.args[1]) == 1 and cmpr.same(it.args[1][0], nd)
+
+
+def _all_axes_but_i(ev, cmpr, ax, nd, outer_dom):
+  """`ax` denotes {0..ndim-1} minus {i}, i being the variable of the enclosing iteration over range(ndim)."""
+  def over_ndim(v):
+    bounds = [a for a in v.args if a.op != 'depth']
+    return v.op == 'rangevar' and len(bounds) == 1 and cmpr.same(bounds[0], nd)
+  outer = [x for x in walk(ax) if x.op == 'rangevar' and not any(a.op == 'depth' for a in x.args) and over_ndim(x)]
+  if not outer:
+    return False
+  iv = outer[0]
+  # form A: range(i) + range(i + 1, ndim)
+  if cmpr.same(ax, spec_term(ev, 'list(range(i)) + list(range(i + 1, n))', {'i': iv, 'n': nd})):
+    return True
+  # form B: [a for a in range(ndim) if a != i]
+  a = ax
+  while a.op == 'call' and a.args[0].op == 'builtin' and a.args[0].args[0] in ('list', 'tuple', 'sorted') and len(a.args[1]) == 1:
+    a = a.args[1][0]
+  if a.op in ('list', 'tuple') and len(a.args) == 1 and a.args[0].op == 'star':
+    v, dom = a.args[0].args
+    if dom.op == 'compdom' and len(dom.args) == 2 and over_ndim(v) and v is not iv and _is_range_ndim(cmpr, dom.args[0], nd):
+      c = dom.args[1]
+      neg = False
+      if c.op == 'un' and c.args[0] == 'not':
+        c, neg = c.args[1], True
+      if c.op == 'cmp' and {c.args[1], c.args[2]} == {v, iv}:
+        return (c.args[0] == '!=' and not neg) or (c.args[0] == '==' and neg)
+  return False
 
 
 def _is_expanded_list(ev, cmpr, lst, env):
